@@ -268,5 +268,30 @@ func c17Extra() []c17inst {
 			return o
 		}, dts: num})
 	}
+	// ---- MaskFromSlice: one loop per slice element type (non-zero elements are masked)
+	mks := []int{0, 1, 0, 2, 0, 3}
+	out = append(out, c17inst{family: "maskpred", op: "MaskFromSlice", variant: "(6)", run: func(d ref.DT) ([]interface{}, bool, string) {
+		t := tensor.New(tensor.Of(tensor.Float64), tensor.WithShape(6))
+		x := d.MakeSlice(6)
+		for i, k := range mks {
+			ref.SliceSet(x, i, d.Code(k))
+		}
+		if o := call(func() error { t.MaskFromSlice(x); return nil }); o.Class != "ok" {
+			return nil, false, fmt.Sprint("panic: ", o.Panic)
+		}
+		m := t.Mask()
+		if len(m) != 6 {
+			return nil, false, fmt.Sprintf("mask of length %d", len(m))
+		}
+		res := make([]interface{}, 6)
+		for i, b := range m {
+			if b {
+				res[i] = float64(1)
+			} else {
+				res[i] = float64(0)
+			}
+		}
+		return res, false, ""
+	}, generic: func() []float64 { return []float64{0, 1, 0, 1, 0, 1} }, dts: num})
 	return out
 }
